@@ -141,7 +141,8 @@ std::pair<Score, Score> SwitchFlipCalculator::compare (const std::vector<std::ve
             std::cout<<"Problem occured at variant "<<(numVars-1)<<" in row "<<currentRow.asString(ploidy)<<std::endl;
         permInColumn.push_back(currentRow.asVector(ploidy));
         Score localFlips = getNumFlips(currentRow, phasing0[numVars-1], phasing1[numVars-1]);
-        Score localSwitches = getNumSwitches(currentRow, m[numVars-1][currentRow].pred);
+        // the first column has no predecessor, so a block of one variant cannot contain a switch
+        Score localSwitches = numVars == 1 ? 0.0 : getNumSwitches(currentRow, m[numVars-1][currentRow].pred);
         std::vector<uint32_t> localFlippedHaps = getFlippedHaps(currentRow, phasing0[numVars-1], phasing1[numVars-1]);
         flippedHapsInColumn.push_back(localFlippedHaps);
         switchesInColumn.push_back(localSwitches);
